@@ -96,6 +96,19 @@ Theorem T13_active_zero : forall (conns : list (nat * bool * list clabel)) fires
 Proof. exact active_zero_conns. Qed.
 Print Assumptions T13_active_zero.
 
+(* Byte counters of the tracking wrapper: after ANY sequence of Read / Write / ReadFrom calls the counters are exactly
+   the sums of the n those calls returned (rx over Read, tx over Write and ReadFrom), in whatever order concurrent
+   calls add to them; the function evaluated on the implementation's calls is this model. *)
+Theorem T13_byte_counters_are_sums : forall ops, brun ops = (rx_sum ops, tx_sum ops).
+Proof. exact byte_counters_are_sums. Qed.
+Print Assumptions T13_byte_counters_are_sums.
+Theorem T13_byte_counters_order_irrelevant : forall a c, Permutation.Permutation a c -> brun a = brun c.
+Proof. exact byte_counters_order_irrelevant. Qed.
+Print Assumptions T13_byte_counters_order_irrelevant.
+Theorem T13_byte_oracle_is_model : forall ops, byte_model ops = brun (map bop_of ops).
+Proof. exact byte_model_is_brun. Qed.
+Print Assumptions T13_byte_oracle_is_model.
+
 (* Non-vacuity: a concrete exchange (CONNECT tunnel) and a concrete 3-way concurrent close. *)
 Example T13_example :
   let v := Build_val RdOk false true false false RtOk St2xx false false CnOk WOk false false AfPlain false in
